@@ -22,6 +22,17 @@ def atom_of(p, pr, f, test, label):
     """normalise a branch test to (role, truth) by provenance; None if unrecognised"""
     t = test
     neg = False
+    # a named condition: `is_first = <lookup> is None` ... `if is_first:` - judge the expression the name stands for (single binding, a comparison)
+    flips = 0
+    t0 = t
+    while isinstance(t0, ast.UnaryOp) and isinstance(t0.op, ast.Not):
+        t0, flips = t0.operand, flips + 1
+    if isinstance(t0, ast.Name):
+        binds = [a for a in walk_no_nested(f.node) if isinstance(a, ast.Assign) and len(a.targets) == 1 and isinstance(a.targets[0], ast.Name) and a.targets[0].id == t0.id]
+        others = [n for n in walk_no_nested(f.node) if isinstance(n, ast.Name) and n.id == t0.id and isinstance(n.ctx, ast.Store)]
+        if len(binds) == 1 and len(others) == 1 and isinstance(binds[0].value, ast.Compare) and t0.id not in f.params:
+            lab2 = label if flips % 2 == 0 else ("F" if label == "T" else "T")
+            return atom_of(p, pr, f, binds[0].value, lab2)
     if isinstance(t, ast.Compare) and len(t.ops) == 1:
         l, r = t.left, t.comparators[0]
         op = t.ops[0]
